@@ -600,92 +600,21 @@ Proof.
   - rewrite <- IH. destruct (ostyle_get (Some n) (rev (map conv_style l))); reflexivity.
 Qed.
 
-(* the rows of a table are skipped up to its end tag *)
-Lemma ods_content_run : forall content rest name v st, forallb content_ok content = true ->
-  ods_run (content ++ End o_table :: rest) (OTable name v) st =
+(* the other children of a table (columns, rows …) are passed over *)
+Lemma ods_content_skip : forall content rest name v st, forallb content_ok content = true ->
+  ods_run (content ++ rest) (OTable name v) st = ods_run rest (OTable name v) st.
+Proof.
+  induction content as [|e content IH]; intros rest name v st H; [reflexivity|].
+  cbn in H. apply andb_true_iff in H. destruct H as [H1 H2].
+  destruct e as [n a|n|t|t|]; cbn [app ods_run]; try (apply IH; exact H2);
+    cbn in H1; apply negb_true_iff in H1; rewrite H1; apply IH; exact H2.
+Qed.
+
+Lemma ods_table_end : forall rest name v st,
+  ods_run (End o_table :: rest) (OTable name v) st =
   ods_run rest OMain (mkOds (od_meta st ++ [mkMeta name v WorkSheet]) (od_names st)
                             (od_styles st) (od_style_name st)).
-Proof.
-  induction content as [|e content IH]; intros rest name v st H.
-  - cbn [app ods_run]. change (str_eqb o_table o_table) with true. reflexivity.
-  - cbn in H. apply andb_true_iff in H. destruct H as [H1 H2].
-    destruct e as [n a|n|t|t|]; cbn [app ods_run]; try (apply IH; exact H2).
-    cbn in H1. apply negb_true_iff in H1. rewrite H1. apply IH. exact H2.
-Qed.
-
-Lemma get_attribute_absent : forall k a, attr_free [k] a = true -> get_attribute a k = None.
-Proof.
-  intros k a H. rewrite <- (app_nil_r a). rewrite (get_attribute_free k a [] H). reflexivity.
-Qed.
-
-(* one table:table element *)
-Lemma ods_table_step : forall styles s ch rest m nm sn,
-  os_legal styles s ch = true ->
-  ods_run (table_events s ch ++ rest) OMain
-          (mkOds m nm (rev (map conv_style styles)) sn) =
-  ods_run rest OMain (mkOds (m ++ [s]) nm (rev (map conv_style styles)) sn).
-Proof.
-  intros styles s ch rest m nm sn Hl. unfold os_legal in Hl.
-  apply andb_true_iff in Hl. destruct Hl as [Hl Hcont].
-  apply andb_true_iff in Hl. destruct Hl as [Hl Hpost].
-  apply andb_true_iff in Hl. destruct Hl as [Hl Hpre].
-  apply andb_true_iff in Hl. destruct Hl as [Hl Hvis].
-  apply andb_true_iff in Hl. destruct Hl as [Hkind Hv].
-  assert (Pn : attr_free [o_tname] (os_pre ch) = true)
-    by (apply (attr_free_weaken o_tname _ _ Hpre); reflexivity).
-  assert (Ps : attr_free [o_tstyle] (os_pre ch) = true)
-    by (apply (attr_free_weaken o_tstyle _ _ Hpre); reflexivity).
-  assert (Qn : attr_free [o_tname] (os_post ch) = true)
-    by (apply (attr_free_weaken o_tname _ _ Hpost); reflexivity).
-  assert (Qs : attr_free [o_tstyle] (os_post ch) = true)
-    by (apply (attr_free_weaken o_tstyle _ _ Hpost); reflexivity).
-  assert (Hv' : match ostyle_get (os_style ch) (rev (map conv_style styles)) with
-                | Some v => v | None => Visible end = m_vis s).
-  { destruct (os_style ch) as [n|].
-    - rewrite ostyle_get_spec. destruct (m_vis s), (style_vis styles n Visible);
-        try discriminate; reflexivity.
-    - rewrite ostyle_get_none. destruct (m_vis s); try discriminate; reflexivity. }
-  assert (Hgo : forall a,
-    get_attribute a o_tstyle = os_style ch -> get_attribute a o_tname = Some (m_name s) ->
-    ods_run (Start o_table a :: os_content ch ++ End o_table :: rest) OMain
-            (mkOds m nm (rev (map conv_style styles)) sn) =
-    ods_run rest OMain (mkOds (m ++ [s]) nm (rev (map conv_style styles)) sn)).
-  { intros a Ha1 Ha2. cbn [ods_run].
-    change (str_eqb o_table o_style) with false. cbn iota.
-    change (str_eqb o_table o_tprops) with false. rewrite andb_false_r. cbn iota.
-    change (str_eqb o_table o_table) with true. cbn iota.
-    cbn [od_meta od_names od_styles od_style_name]. rewrite Ha1, Ha2, Hv'.
-    rewrite (ods_content_run (os_content ch) rest (m_name s) (m_vis s) _ Hcont).
-    cbn [od_meta od_names od_styles od_style_name].
-    destruct s as [a0 b k]. cbn [m_name m_vis m_kind] in *. destruct k; try discriminate.
-    reflexivity. }
-  unfold table_events. rewrite <- !app_assoc. cbn [app].
-  apply Hgo.
-  - rewrite (get_attribute_free o_tstyle (os_pre ch) _ Ps).
-    destruct (os_swap ch), (os_style ch); cbn [app get_attribute];
-      change (str_eqb o_tstyle o_tstyle) with true;
-      change (str_eqb o_tname o_tstyle) with false; cbn iota;
-      try reflexivity; apply (get_attribute_absent o_tstyle _ Qs).
-  - rewrite (get_attribute_free o_tname (os_pre ch) _ Pn).
-    destruct (os_swap ch), (os_style ch); reflexivity.
-Qed.
-
-Lemma ods_tables_run : forall styles j sheets chs rest m nm sn,
-  forallb junk_ok_ods j = true -> forallb2 (os_legal styles) sheets chs = true ->
-  exists sn',
-  ods_run (flat_map (fun sc => j ++ table_events (fst sc) (snd sc)) (combine sheets chs) ++ rest)
-          OMain (mkOds m nm (rev (map conv_style styles)) sn) =
-  ods_run rest OMain (mkOds (m ++ sheets) nm (rev (map conv_style styles)) sn').
-Proof.
-  intros styles j. induction sheets as [|s sheets IH]; intros [|ch chs] rest m nm sn Hj Hl;
-    cbn in Hl; try discriminate.
-  - exists sn. rewrite app_nil_r. reflexivity.
-  - apply andb_true_iff in Hl. destruct Hl as [Hl1 Hl2].
-    cbn [combine flat_map fst snd]. rewrite <- !app_assoc.
-    rewrite (ods_skip j _ m nm _ sn Hj), (ods_table_step styles s ch _ m nm _ Hl1).
-    destruct (IH chs rest (m ++ [s]) nm (junk_sn j sn) Hj Hl2) as [sn' E].
-    exists sn'. rewrite E, <- app_assoc. reflexivity.
-Qed.
+Proof. intros. cbn [ods_run]. change (str_eqb o_table o_table) with true. reflexivity. Qed.
 
 (* named expressions *)
 Lemma nexpr_attrs_free : forall a r n f, attr_free [o_tname; o_cra; o_expr] a = true ->
@@ -717,10 +646,10 @@ Proof.
     change (str_eqb o_cra o_cra) with true; cbn [orb]; cbn iota; rewrite Hend; reflexivity.
 Qed.
 
-Lemma ods_nexpr_step : forall n ch rest acc st, on_legal ch = true ->
-  ods_run (nexpr_events n ch ++ rest) (ONames acc) st = ods_run rest (ONames (acc ++ [n])) st.
+Lemma ods_nexpr_step : forall n ch rest acc ret st, on_legal ch = true ->
+  ods_run (nexpr_events n ch ++ rest) (ONames acc ret) st = ods_run rest (ONames (acc ++ [n]) ret) st.
 Proof.
-  intros n ch rest acc st Hl. pose proof (nexpr_attrs_enc n ch Hl) as Ha.
+  intros n ch rest acc ret st Hl. pose proof (nexpr_attrs_enc n ch Hl) as Ha.
   unfold nexpr_events. cbv zeta.
   set (el := if on_expr ch then o_nexpr else o_nrange).
   set (attrs := on_pre ch ++ _) in *.
@@ -730,36 +659,174 @@ Proof.
   cbn [ods_run]. rewrite Hel, Ha. destruct n; reflexivity.
 Qed.
 
-Lemma ods_njunk_skip : forall nj rest acc st, forallb names_junk_ok nj = true ->
-  ods_run (nj ++ rest) (ONames acc) st = ods_run rest (ONames acc) st.
+Lemma ods_njunk_skip : forall nj rest acc ret st, forallb names_junk_ok nj = true ->
+  ods_run (nj ++ rest) (ONames acc ret) st = ods_run rest (ONames acc ret) st.
 Proof.
-  induction nj as [|e nj IH]; intros rest acc st H; [reflexivity|].
+  induction nj as [|e nj IH]; intros rest acc ret st H; [reflexivity|].
   cbn in H. apply andb_true_iff in H. destruct H as [H1 H2].
   destruct e; try discriminate; cbn [app ods_run]; apply IH; exact H2.
 Qed.
 
-Lemma ods_names_run : forall nj names chs rest acc st,
+Lemma ods_names_run : forall nj names chs rest acc ret st,
   forallb names_junk_ok nj = true ->
   forallb2 (fun (_ : str * str) ch => on_legal ch) names chs = true ->
   ods_run (flat_map (fun nc => nexpr_events (fst nc) (snd nc) ++ nj) (combine names chs) ++ rest)
-          (ONames acc) st =
-  ods_run rest (ONames (acc ++ names)) st.
+          (ONames acc ret) st =
+  ods_run rest (ONames (acc ++ names) ret) st.
 Proof.
-  intros nj. induction names as [|n names IH]; intros [|ch chs] rest acc st Hj Hl; cbn in Hl;
+  intros nj. induction names as [|n names IH]; intros [|ch chs] rest acc ret st Hj Hl; cbn in Hl;
     try discriminate.
   - rewrite app_nil_r. reflexivity.
   - apply andb_true_iff in Hl. destruct Hl as [Hl1 Hl2].
     cbn [combine flat_map fst snd]. rewrite <- !app_assoc.
-    rewrite (ods_nexpr_step n ch _ acc st Hl1), (ods_njunk_skip nj _ _ st Hj).
+    rewrite (ods_nexpr_step n ch _ acc ret st Hl1), (ods_njunk_skip nj _ _ ret st Hj).
     rewrite IH by assumption. rewrite <- app_assoc. reflexivity.
+Qed.
+
+(* the inside of a table:named-expressions element, from just after its start tag: the names are
+   appended to defined_names and the reader is back where it was called from *)
+Lemma ods_nexprs_body : forall nj names chs rest ret st,
+  forallb names_junk_ok nj = true ->
+  forallb2 (fun (_ : str * str) ch => on_legal ch) names chs = true ->
+  ods_run (nj ++ flat_map (fun nc => nexpr_events (fst nc) (snd nc) ++ nj) (combine names chs)
+              ++ End o_nexprs :: rest) (ONames [] ret) st =
+  ods_run rest (match ret with Some (name, v) => OTable name v | None => OMain end)
+          (mkOds (od_meta st) (od_names st ++ names) (od_styles st) (od_style_name st)).
+Proof.
+  intros nj names chs rest ret st Hj Hl.
+  rewrite (ods_njunk_skip nj _ _ ret st Hj).
+  rewrite (ods_names_run nj names chs _ [] ret st Hj Hl).
+  cbn [app ods_run].
+  change (str_eqb o_nexprs o_nrange) with false. change (str_eqb o_nexprs o_nexpr) with false.
+  cbn [orb]. cbn iota. change (str_eqb o_nexprs o_nexprs) with true. cbn iota. reflexivity.
+Qed.
+
+(* the named-expressions element of a table *)
+Lemma ods_local_nexprs_run : forall names chs nj omit rest name v st,
+  forallb names_junk_ok nj = true ->
+  forallb2 (fun (_ : str * str) ch => on_legal ch) names chs = true ->
+  ods_run (nexprs_events names chs nj omit ++ rest) (OTable name v) st =
+  ods_run rest (OTable name v)
+          (mkOds (od_meta st) (od_names st ++ names) (od_styles st) (od_style_name st)).
+Proof.
+  intros names chs nj omit rest name v st Hj Hl. unfold nexprs_events.
+  destruct (omit && match names with [] => true | _ => false end) eqn:Eo.
+  - apply andb_true_iff in Eo. destruct Eo as [_ Eo]. destruct names; [|discriminate].
+    cbn [app]. rewrite app_nil_r. destruct st; reflexivity.
+  - rewrite <- !app_assoc. cbn [app ods_run].
+    change (str_eqb o_nexprs o_nexprs) with true. cbn iota.
+    rewrite (ods_nexprs_body nj names chs rest (Some (name, v)) st Hj Hl). reflexivity.
+Qed.
+
+
+Lemma get_attribute_absent : forall k a, attr_free [k] a = true -> get_attribute a k = None.
+Proof.
+  intros k a H. rewrite <- (app_nil_r a). rewrite (get_attribute_free k a [] H). reflexivity.
+Qed.
+
+(* one table:table element *)
+Lemma ods_table_step : forall styles s ch rest m nm sn,
+  os_legal styles s ch = true ->
+  ods_run (table_events s ch ++ rest) OMain
+          (mkOds m nm (rev (map conv_style styles)) sn) =
+  ods_run rest OMain (mkOds (m ++ [fst s]) (nm ++ snd s) (rev (map conv_style styles)) sn).
+Proof.
+  intros styles [s lnames] ch rest m nm sn Hl. unfold os_legal in Hl. cbn [fst snd] in *.
+  apply andb_true_iff in Hl. destruct Hl as [Hl Hafter].
+  apply andb_true_iff in Hl. destruct Hl as [Hl Hlj].
+  apply andb_true_iff in Hl. destruct Hl as [Hl Hln].
+  apply andb_true_iff in Hl. destruct Hl as [Hl Hcont].
+  apply andb_true_iff in Hl. destruct Hl as [Hl Hpost].
+  apply andb_true_iff in Hl. destruct Hl as [Hl Hpre].
+  apply andb_true_iff in Hl. destruct Hl as [Hl Hvis].
+  apply andb_true_iff in Hl. destruct Hl as [Hkind Hv].
+  assert (Pn : attr_free [o_tname] (os_pre ch) = true)
+    by (apply (attr_free_weaken o_tname _ _ Hpre); reflexivity).
+  assert (Ps : attr_free [o_tstyle] (os_pre ch) = true)
+    by (apply (attr_free_weaken o_tstyle _ _ Hpre); reflexivity).
+  assert (Qn : attr_free [o_tname] (os_post ch) = true)
+    by (apply (attr_free_weaken o_tname _ _ Hpost); reflexivity).
+  assert (Qs : attr_free [o_tstyle] (os_post ch) = true)
+    by (apply (attr_free_weaken o_tstyle _ _ Hpost); reflexivity).
+  assert (Hv' : match ostyle_get (os_style ch) (rev (map conv_style styles)) with
+                | Some v => v | None => Visible end = m_vis s).
+  { destruct (os_style ch) as [n|].
+    - rewrite ostyle_get_spec. destruct (m_vis s), (style_vis styles n Visible);
+        try discriminate; reflexivity.
+    - rewrite ostyle_get_none. destruct (m_vis s); try discriminate; reflexivity. }
+  assert (Hgo : forall a,
+    get_attribute a o_tstyle = os_style ch -> get_attribute a o_tname = Some (m_name s) ->
+    ods_run (Start o_table a :: os_content ch
+               ++ nexprs_events lnames (os_lnames ch) (os_lnames_junk ch) (os_omit_lnames ch)
+               ++ os_after ch ++ End o_table :: rest) OMain
+            (mkOds m nm (rev (map conv_style styles)) sn) =
+    ods_run rest OMain (mkOds (m ++ [s]) (nm ++ lnames) (rev (map conv_style styles)) sn)).
+  { intros a Ha1 Ha2. cbn [ods_run].
+    change (str_eqb o_table o_style) with false. cbn iota.
+    change (str_eqb o_table o_tprops) with false. rewrite andb_false_r. cbn iota.
+    change (str_eqb o_table o_table) with true. cbn iota.
+    cbn [od_meta od_names od_styles od_style_name]. rewrite Ha1, Ha2, Hv'.
+    rewrite (ods_content_skip (os_content ch) _ (m_name s) (m_vis s) _ Hcont).
+    rewrite (ods_local_nexprs_run lnames (os_lnames ch) (os_lnames_junk ch) (os_omit_lnames ch) _
+               (m_name s) (m_vis s) _ Hlj Hln).
+    rewrite (ods_content_skip (os_after ch) _ (m_name s) (m_vis s) _ Hafter).
+    rewrite ods_table_end.
+    cbn [od_meta od_names od_styles od_style_name].
+    destruct s as [a0 b k]. cbn [m_name m_vis m_kind] in *. destruct k; try discriminate.
+    reflexivity. }
+  unfold table_events. cbn [fst snd]. rewrite <- !app_assoc. cbn [app].
+  apply Hgo.
+  - rewrite (get_attribute_free o_tstyle (os_pre ch) _ Ps).
+    destruct (os_swap ch), (os_style ch); cbn [app get_attribute];
+      change (str_eqb o_tstyle o_tstyle) with true;
+      change (str_eqb o_tname o_tstyle) with false; cbn iota;
+      try reflexivity; apply (get_attribute_absent o_tstyle _ Qs).
+  - rewrite (get_attribute_free o_tname (os_pre ch) _ Pn).
+    destruct (os_swap ch), (os_style ch); reflexivity.
+Qed.
+
+Lemma ods_tables_run : forall styles j sheets chs rest m nm sn,
+  forallb junk_ok_ods j = true -> forallb2 (os_legal styles) sheets chs = true ->
+  exists sn',
+  ods_run (flat_map (fun sc => j ++ table_events (fst sc) (snd sc)) (combine sheets chs) ++ rest)
+          OMain (mkOds m nm (rev (map conv_style styles)) sn) =
+  ods_run rest OMain (mkOds (m ++ map fst sheets) (nm ++ flat_map snd sheets)
+                            (rev (map conv_style styles)) sn').
+Proof.
+  intros styles j. induction sheets as [|s sheets IH]; intros [|ch chs] rest m nm sn Hj Hl;
+    cbn in Hl; try discriminate.
+  - exists sn. cbn [map flat_map]. rewrite !app_nil_r. reflexivity.
+  - apply andb_true_iff in Hl. destruct Hl as [Hl1 Hl2].
+    cbn [combine flat_map fst snd map]. rewrite <- !app_assoc.
+    rewrite (ods_skip j _ m nm _ sn Hj), (ods_table_step styles s ch _ m nm _ Hl1).
+    destruct (IH chs rest (m ++ [fst s]) (nm ++ snd s) (junk_sn j sn) Hj Hl2) as [sn' E].
+    exists sn'. rewrite E, <- !app_assoc. reflexivity.
+Qed.
+
+(* the global table:named-expressions element *)
+Lemma ods_global_nexprs_run : forall names chs nj omit rest m nm s sn,
+  forallb names_junk_ok nj = true ->
+  forallb2 (fun (_ : str * str) ch => on_legal ch) names chs = true ->
+  ods_run (nexprs_events names chs nj omit ++ rest) OMain (mkOds m nm s sn) =
+  ods_run rest OMain (mkOds m (nm ++ names) s sn).
+Proof.
+  intros names chs nj omit rest m nm s sn Hj Hl. unfold nexprs_events.
+  destruct (omit && match names with [] => true | _ => false end) eqn:Eo.
+  - apply andb_true_iff in Eo. destruct Eo as [_ Eo]. destruct names; [|discriminate].
+    cbn [app]. rewrite app_nil_r. reflexivity.
+  - rewrite <- !app_assoc. cbn [app ods_run].
+    change (str_eqb o_nexprs o_style) with false. cbn iota.
+    change (str_eqb o_nexprs o_tprops) with false. rewrite andb_false_r. cbn iota.
+    change (str_eqb o_nexprs o_table) with false. cbn iota.
+    change (str_eqb o_nexprs o_nexprs) with true. cbn iota.
+    rewrite (ods_nexprs_body nj names chs rest None _ Hj Hl). reflexivity.
 Qed.
 
 Theorem ods_parse_encode : forall c wb,
   ods_legal c wb = true ->
-  ods_parse_content (ods_events c wb) = Ok (mkParsed (wb_sheets wb) [] (wb_names wb) false).
+  ods_parse_content (ods_events c wb) = Ok (mkParsed (ow_metas wb) [] (ow_all_names wb) false).
 Proof.
   intros c wb Hl. unfold ods_legal in Hl.
-  apply andb_true_iff in Hl. destruct Hl as [Hl _].
   apply andb_true_iff in Hl. destruct Hl as [Hl Hnj].
   apply andb_true_iff in Hl. destruct Hl as [Hl Hnames].
   apply andb_true_iff in Hl. destruct Hl as [Hj Hsheets].
@@ -786,31 +853,14 @@ Proof.
   match goal with
   | |- context [ods_run (flat_map (fun sc => j ++ table_events (fst sc) (snd sc)) ?l ++ ?rest) OMain
                         (mkOds ?m ?nm ?s ?sn)] =>
-    destruct (ods_tables_run (oc_styles c) j (wb_sheets wb) (oc_sheets c) rest m nm sn Hj Hsheets)
+    destruct (ods_tables_run (oc_styles c) j (ow_sheets wb) (oc_sheets c) rest m nm sn Hj Hsheets)
       as [sn2 E2]; rewrite E2; clear E2
   end.
   cbn [app].
   rewrite (ods_skip j _ _ _ _ sn2 Hj).
-  (* the named expressions *)
-  assert (Hfin : forall m nm s sn,
-            ods_run (j ++ [End o_spreadsheet; End o_body; End o_doc]) OMain (mkOds m nm s sn)
-            = Ok (mkOds m nm s (junk_sn j sn))).
-  { intros. rewrite (ods_skip j _ m nm s sn Hj). reflexivity. }
-  destruct (oc_omit_names c && match wb_names wb with [] => true | _ => false end) eqn:Eo.
-  - cbn [app]. rewrite Hfin. cbn [obind od_meta od_names].
-    apply andb_true_iff in Eo. destruct Eo as [_ Eo]. destruct (wb_names wb); [reflexivity|discriminate].
-  - cbn [app]. rewrite <- !app_assoc. cbn [app ods_run].
-    change (str_eqb o_nexprs o_style) with false. cbn iota.
-    change (str_eqb o_nexprs o_tprops) with false. rewrite andb_false_r. cbn iota.
-    change (str_eqb o_nexprs o_table) with false. cbn iota.
-    change (str_eqb o_nexprs o_nexprs) with true. cbn iota.
-    rewrite (ods_njunk_skip (oc_names_junk c) _ _ _ Hnj).
-    rewrite (ods_names_run (oc_names_junk c) (wb_names wb) (oc_names c) _ [] _ Hnj Hnames).
-    cbn [app ods_run].
-    change (str_eqb o_nexprs o_nrange) with false. change (str_eqb o_nexprs o_nexpr) with false.
-    cbn [orb]. cbn iota. change (str_eqb o_nexprs o_nexprs) with true. cbn iota.
-    cbn [od_meta od_names od_styles od_style_name].
-    rewrite Hfin. reflexivity.
+  rewrite (ods_global_nexprs_run (ow_names wb) (oc_names c) (oc_names_junk c) (oc_omit_names c)
+             _ _ _ _ _ Hnj Hnames).
+  rewrite (ods_skip j _ _ _ _ _ Hj). reflexivity.
 Qed.
 
 (* ------------------------------------------------------------------------------------- *)
@@ -910,19 +960,28 @@ Lemma xlsx_nonvacuous :
   Ok (mkParsed (wb_sheets ex_xlsx_wb) (xlsx_paths ex_xlsx_c ex_xlsx_wb) (wb_names ex_xlsx_wb) true).
 Proof. vm_compute. repeat split. Qed.
 
-Definition ex_ods_wb : workbook str :=
-  mkWb [mkMeta [97; 38] Hidden WorkSheet; mkMeta [128512] Visible WorkSheet; mkMeta [98] Visible WorkSheet]
-       [([110], [36; 65]); ([109], [91; 46; 65; 49; 93])] false.
+(* three sheets; the first (hidden) has two names of its own, written LibreOffice's way as the
+   first child of the table, the third has one, written where the schema puts it (last child,
+   after the rows); the second has none and no element; two global names *)
+Definition ex_ods_wb : ods_workbook :=
+  mkOwb [(mkMeta [97; 38] Hidden WorkSheet, [([108; 49], [36; 66; 50]); ([110], [91; 46; 67; 51; 93])]);
+         (mkMeta [128512] Visible WorkSheet, []);
+         (mkMeta [98] Visible WorkSheet, [([108; 51], [36; 65; 49])])]
+        [([110], [36; 65]); ([109], [91; 46; 65; 49; 93])].
 Definition ex_ods_c : ods_choice :=
   mkOc [([116; 49], Some true); ([116; 50], Some false); ([116; 51], None)]
-       [mkOs (Some [116; 50]) [] [] true [Start [114] []; End [114]];
-        mkOs (Some [116; 51]) [([120], [49])] [] false []; mkOs None [] [] false []]
+       [mkOs (Some [116; 50]) [] [] true [] [mkOn false false [] []; mkOn true true [] []] [Text [10; 32]] false
+             [Start [114] []; End [114]];
+        mkOs (Some [116; 51]) [([120], [49])] [] false [] [] [] true [];
+        mkOs None [] [] false [Text [10]; Start [114] []; End [114]; Text [10]] [mkOn false true [] []] [] true [Text [10]]]
        [mkOn false true [] []; mkOn true false [] []]
        [Other; Start o_style [(o_style_name, [99])]; End o_style] [] false.
 Lemma ods_nonvacuous :
   ods_legal ex_ods_c ex_ods_wb = true /\
   ods_parse_content (ods_events ex_ods_c ex_ods_wb) =
-  Ok (mkParsed (wb_sheets ex_ods_wb) [] (wb_names ex_ods_wb) false).
+  Ok (mkParsed (ow_metas ex_ods_wb) [] (ow_all_names ex_ods_wb) false) /\
+  ow_all_names ex_ods_wb = [([108; 49], [36; 66; 50]); ([110], [91; 46; 67; 51; 93]); ([108; 51], [36; 65; 49]);
+                            ([110], [36; 65]); ([109], [91; 46; 65; 49; 93])].
 Proof. vm_compute. repeat split. Qed.
 
 (* ------------------------------------------------------------------------------------- *)
@@ -937,7 +996,7 @@ Proof.
 Qed.
 Theorem sheets_in_order_ods : forall c wb,
   ods_legal c wb = true ->
-  exists p, ods_parse_content (ods_events c wb) = Ok p /\ p_sheets p = wb_sheets wb.
+  exists p, ods_parse_content (ods_events c wb) = Ok p /\ p_sheets p = ow_metas wb.
 Proof.
   intros c wb Hl. eexists. split; [exact (ods_parse_encode c wb Hl)|reflexivity].
 Qed.
@@ -951,7 +1010,7 @@ Proof.
 Qed.
 Theorem defined_names_in_order_ods : forall c wb,
   ods_legal c wb = true ->
-  exists p, ods_parse_content (ods_events c wb) = Ok p /\ p_names p = wb_names wb.
+  exists p, ods_parse_content (ods_events c wb) = Ok p /\ p_names p = ow_all_names wb.
 Proof.
   intros c wb Hl. eexists. split; [exact (ods_parse_encode c wb Hl)|reflexivity].
 Qed.
